@@ -302,53 +302,11 @@ def r182(ctx):
 
 
 def r183(ctx):
-    rid = "R-18.3"
-    tree = ctx.tree
-    f = tree.func(SETUP, "setup_config")
-    fl = flow_of(f)
-    cfg = fl.cfg
-    n = 0
-    for d in fl.defs:
-        if not (d.path.startswith("config[") and d.kind == "assign" and d.stmt is not None):
-            continue
-        if d.path == "config['current']" or d.path.startswith("config['current']") or d.path.startswith("config['output']"):
-            # bookkeeping written once under `"current" not in config` / derived output names
-            guards = [ast.unparse(e) for e, t, _ in cfg.guards(d.at)]
-            continue
-        n += 1
-        key = d.path
-        v = d.value
-        ok = False
-        why = ""
-        # shape A: v = cfg.get(k, default); cfg[k] = v   (value read from the same key)
-        for kind, node, at, extra in fl.sources(v, d.at):
-            if kind == "expr" and isinstance(node, ast.Call) and isinstance(node.func, ast.Attribute) and node.func.attr == "get":
-                base, ks = keys_chain(node)
-                want = "config" + "".join(f"[{k!r}]" for k in ks)
-                if want == key:
-                    ok = True
-        # shape B: guarded by the absence of the key it writes (or of a flag computed from it)
-        if not ok:
-            for e, t, bn in cfg.guards(d.at):
-                txt = ast.unparse(e)
-                last = key.split("[")[-1].strip("]'\"")
-                if (isinstance(e, ast.Compare) and isinstance(e.ops[0], (ast.NotIn,)) and t and last in txt) or (isinstance(e, ast.Compare) and isinstance(e.ops[0], ast.In) and not t and last in txt):
-                    ok = True
-                # `if not has_ens_engs:` where has_ens_engs = cfg.get(<same key>, False)
-                for nm in [x for x in ast.walk(e) if isinstance(x, ast.Name)]:
-                    for kind, node, at2, extra in fl.sources(nm, [x for x in cfg.nodes if x.kind == "test" and x.ast is bn.ast][0]):
-                        if kind == "expr" and isinstance(node, ast.Call) and isinstance(node.func, ast.Attribute) and node.func.attr == "get":
-                            base, ks = keys_chain(node)
-                            want = "config" + "".join(f"[{k!r}]" for k in ks)
-                            if key.startswith(want) and not t:
-                                ok = True
-        if ok:
-            ctx.ok(rid, d.stmt, f"normalising store to {key} is idempotent by shape (re-reading the written file leaves it unchanged)")
-        else:
-            ctx.bad(rid, d.stmt, f"setup_config rewrites {key} unconditionally with a value not read from that key: re-reading a restart file the program wrote is not a fixed point of the normalisation",
-                    construct=short(d.stmt, 80))
-    if n < 5:
-        raise AnalysisError(f"R-18.3: only {n} normalising stores found in setup_config")
+    """Re-reading a restart file the program wrote is a fixed point of setup_config's
+    normalisation: on the restart path every store outside [current] only fills in a missing
+    default (shared rule, resolved through configuration provenance, not through local names)."""
+    from .shared import RuleProxy, restart_preserves_settings
+    restart_preserves_settings(RuleProxy(ctx, "R-18.3"), "R-18.3", " (setup_config is not idempotent on its own output)")
 
 
 def run(ctx):
